@@ -1,20 +1,26 @@
 (* WinReEstablish.v -- re-entering expose handlers, part 3(b): the screen invariant after a
    flush whose handlers repaint what they are asked and make ARBITRARY scripted calls into the
-   window layer (expose, show, hide, restack; show and hide not aimed at the root window):
+   window layer (expose, show, hide, restack, close, destroy -- of ANY window, the handler's own
+   included; show and hide not aimed at the root window; closing the root is a no-op):
 
      after the flush every screen cell shows the composition of the FINAL tree, or lies in the
      damage the handlers registered (which the next flush renders); the flags that make the
      next flush run are set; the window ids are still unique.          (flush_re_establishes)
 
+   New hypothesis with respect to the version without close: the ids of the whole FOREST (the
+   tree and the detached subtrees r_orphans) are unique -- WinInputProofs.ids_unique st.
+
    Proof: fix a cell q not covered by the final damage.  During the render loop damage is only
    added, so q was never covered; by locality (WinReLocal.run_act_local) no call changed the
-   visibility flag of a window that matters at q; hence the traversal, although it reads the
-   flags live, descended at q exactly as the composition of the final tree does
-   (WinReTrav.flush_re_q0), and the owner of q is the same in every tree of the loop. *)
+   visibility flag or the parent of a window that matters at q (a close of such a window
+   exposes its area); hence the traversal, although it reads flags and child lists live,
+   descended at q exactly as the composition does (WinReTrav.flush_re_q0), and the owner of q
+   is the same in every tree of the loop (St0). *)
 From Coq Require Import ZArith List Bool Lia ZifyBool.
 From Tickit Require Import RectDefs RectProofs WinRectSet WinRectSetProofs WinDefs WinHist WinSpec
   WinExposeProofs WinFlushProofs WinLogDisjoint WinScreenInv WinLocality WinLocFocus WinPreserve
-  WinReDefs WinReProofs WinReFlags WinReStatic WinReLive WinReTrav WinReLocal.
+  WinInput WinReDefs WinReProofs WinReFlags WinReStatic WinReLive WinReTrav WinReLocal.
+From Tickit Require WinInputProofs.
 Import ListNotations.
 Local Open Scope Z_scope.
 Local Strategy 1000 [rsfuel].
@@ -50,23 +56,54 @@ Proof.
   unfold rb_full, cell_inb, root_selfrect, selfrect, bottom, right. cbn [top left lines cols]. lia.
 Qed.
 
-Lemma gd_keeps cfg T0 hnd racts :
-  (forall id a, In a (racts id) -> act_ok (t_id T0) a) -> rh_keeps (Gd T0) (re_handler cfg hnd racts).
+(* the queue loop keeps the forest's ids unique *)
+Lemma qstep_forest s e : IP.ids_unique s -> IP.ids_unique (qstep s e).
 Proof.
-  intros Hok. apply re_handler_keeps. intros s id.
-  apply (run_acts_keeps (Gd T0)). intros s' a Hin HG. apply run_act_gd; [exact HG|]. apply (Hok id a Hin).
+  intros Hfu. pose proof (forest_tree_nodup s Hfu) as Hu.
+  destruct e as [[k p] w]. unfold qstep.
+  assert (Ho : r_orphans (do_hchange s k p w) = r_orphans s).
+  { unfold do_hchange. destruct (t_find w (r_tree s)) as [wn|]; [|reflexivity].
+    destruct (w_vis (t_info wn)); [rewrite win_expose_orphans|]; reflexivity. }
+  pose proof (do_hchange_ids s k p w Hu) as Hu'.
+  assert (Hincl : forall x, In x (t_ids (r_tree (do_hchange s k p w))) -> In x (t_ids (r_tree s))).
+  { rewrite do_hchange_tree. destruct (t_find w (r_tree s)) as [wn|]; [|tauto].
+    destruct (in_dec Z.eq_dec p (t_ids (r_tree s))) as [Hin|Hnin].
+    2:{ rewrite (upd_kids_notin _ _ _ Hnin). tauto. }
+    destruct (t_find_some p _ Hu Hin) as [n Hn].
+    destruct (upd_kids_kc (apply_hchange k w) p _ n Hu Hn) as [D Hkc].
+    destruct (kc_kids_nodup _ _ _ _ _ _ Hkc Hu) as [Hndk _].
+    pose proof (hchange_perm k w (t_kids n) Hndk) as Hperm.
+    destruct (kc_ids (fun _ => False) _ _ _ _ _ _ Hkc Hu) as [_ H].
+    - intros x [].
+    - apply (Permutation.Permutation_NoDup (l := flat_map t_ids (t_kids n))); [|exact Hndk].
+      apply Permutation.Permutation_sym. apply perm_ids. exact Hperm.
+    - intros x Hx. left. apply (Permutation.Permutation_in _ (perm_ids _ _ Hperm)). exact Hx.
+    - intros x Hx. destruct (H x Hx) as [H'|[]]. exact H'. }
+  unfold IP.ids_unique, IP.forest_ids, forest in *. cbn [flat_map] in *. rewrite Ho.
+  change (IP.t_ids (r_tree (do_hchange s k p w))) with (t_ids (r_tree (do_hchange s k p w))).
+  change (IP.t_ids (r_tree s)) with (t_ids (r_tree s)) in Hfu.
+  apply nodup_app_inv in Hfu. destruct Hfu as (_ & H2 & H3).
+  apply nodup_app_intro; [exact Hu'|exact H2|]. intros x Hx1 Hx2. apply (H3 x (Hincl x Hx1) Hx2).
+Qed.
+
+Lemma after_queue_forest st : IP.ids_unique st -> IP.ids_unique (after_queue st).
+Proof.
+  intros Hfu. rewrite after_queue_eq.
+  assert (H : forall q s, IP.ids_unique s -> IP.ids_unique (fold_left qstep q s)).
+  { induction q as [|e q IH]; intros s Hs; [exact Hs|]. cbn [fold_left]. apply IH. apply qstep_forest. exact Hs. }
+  apply H. exact Hfu.
 Qed.
 
 Theorem flush_re_establishes app progs racts st tm st' tm' lg :
-  ScreenInv app st tm -> ids_unique (r_tree st) ->
+  ScreenInv app st tm -> ids_unique (r_tree st) -> IP.ids_unique st ->
   (forall id, progs id = [DPaint]) ->
   (forall id a, In a (racts id) ->
      match a with RShow w | RHide w => w <> t_id (r_tree st) | _ => True end) ->
   win_flush_re no_defects (re_handler no_defects (prog_handler app progs) racts) st tm = (st', tm', lg) ->
   r_fault st' = false ->
-  ScreenInv app st' tm' /\ ids_unique (r_tree st').
+  ScreenInv app st' tm' /\ ids_unique (r_tree st') /\ IP.ids_unique st'.
 Proof.
-  intros SI Hu Hprogs Hacts Hfl Hf.
+  intros SI Hu Hfu Hprogs Hacts Hfl Hf.
   set (hnd := prog_handler app progs) in *.
   set (rh := re_handler no_defects hnd racts) in *.
   assert (Hsnd : forall id r sb, snd (rh id r sb) = paint_handler app id r (snd sb)).
@@ -74,12 +111,13 @@ Proof.
     rewrite Hprogs. reflexivity. }
   destruct (r_later st) eqn:Hl.
   2:{ unfold win_flush_re in Hfl. rewrite Hl in Hfl. cbn [negb] in Hfl. injection Hfl as <- <- _.
-      split; assumption. }
+      split; [assumption|split; assumption]. }
   set (st2 := after_queue st).
   set (T0 := r_tree st2).
+  assert (Hfu2 : IP.ids_unique st2) by (apply after_queue_forest; exact Hfu).
   (* no rectangle to render (in particular: an empty root window): the plain flush *)
   assert (Hplain : flush_rects no_defects st2 = [] \/ r_nexp st2 = false ->
-                   ScreenInv app st' tm' /\ ids_unique (r_tree st')).
+                   ScreenInv app st' tm' /\ ids_unique (r_tree st') /\ IP.ids_unique st').
   { intros Hcase.
     assert (E : win_flush_re no_defects rh st tm = win_flush no_defects hnd st tm).
     { destruct Hcase as [Er|En]; [apply win_flush_re_norects; exact Er|].
@@ -87,7 +125,10 @@ Proof.
       cbn zeta. fold st2. rewrite En. reflexivity. }
     rewrite E in Hfl.
     destruct (flush_establishes_any_queue app progs st tm st' tm' lg SI Hu Hprogs Hfl Hf) as (_ & _ & A & B).
-    split; assumption. }
+    split; [exact A|]. split; [exact B|].
+    (* the forest of the plain flush's result is that of st2 *)
+    rewrite (win_flush_unfold no_defects hnd st tm Hl) in Hfl. cbn zeta in Hfl. fold st2 in Hfl.
+    destruct (r_nexp st2); [|destruct (r_nrest st2)]; injection Hfl as <- _ _; exact Hfu2. }
   destruct (r_nexp st2) eqn:En; [|apply Hplain; right; reflexivity].
   destruct (Z_lt_dec 0 (lines (w_rect (t_info T0)))) as [HL|HL];
     [destruct (Z_lt_dec 0 (cols (w_rect (t_info T0)))) as [HC|HC]|].
@@ -103,11 +144,10 @@ Proof.
   set (sbL := flush_rb_re rh rects (s0, rb_new L C)) in *.
   injection Hfl as Est' Etm' _.
   assert (HfL : r_fault (fst sbL) = false) by (rewrite <- Est' in Hf; exact Hf).
-  (* the state after the queue *)
-  assert (Hok : forall id a, In a (racts id) -> act_ok (t_id T0) a).
-  { intros id a Hin. specialize (Hacts id a Hin). unfold T0, st2, t_id. rewrite after_queue_root_info.
-    destruct a; exact Hacts. }
-  assert (HG0' : rh_keeps (Gd T0) rh) by (apply gd_keeps; exact Hok).
+  set (rid := t_id T0). set (R := w_rect (t_info T0)).
+  assert (Hok : forall id a, In a (racts id) -> act_ok rid a).
+  { intros id a Hin. specialize (Hacts id a Hin). unfold rid, T0, st2, t_id. rewrite after_queue_root_info.
+    destruct a; try exact I; exact Hacts. }
   assert (Hfa : r_fault st2 = false).
   { assert (H0 : r_fault s0 = false).
     { apply (flush_rb_re_fst_inv (fun x => r_fault x = false -> r_fault s0 = false) rh) with (rects := rects) (sb := (s0, rb_new L C)).
@@ -121,21 +161,24 @@ Proof.
   pose proof SIq as [Ho Hrv Hs Hne Hc Hfg]. rewrite <- LT in Ho, Hrv, Hs. rewrite <- LD in Hc.
   unfold root_selfrect in Hc. rewrite <- LT in Hc. fold (root_selfrect st2) in Hc.
   fold T0 in Ho, Hrv, Hs, Hc.
-  assert (HuT : NoDup (t_ids T0)) by (unfold T0; rewrite LT; exact Huq).
-  assert (HG0 : Gd T0 s0).
-  { split; [exact HuT|]. split; [reflexivity|]. split; [exact Hrv|].
+  assert (HG0 : G1 rid R s0).
+  { split; [|reflexivity]. split; [exact Hfu2|]. split; [reflexivity|]. split; [exact Hrv|].
     split; [split; assumption|]. intros _. constructor. }
-  assert (HGL : Gd T0 (fst sbL)).
-  { apply (flush_rb_re_fst_inv (Gd T0) rh HG0'). exact HG0. }
-  destruct HGL as (HuL & HskL & HrvL & HDL).
-  destruct (skel_eq_root _ _ HskL) as [HidL HrectL].
+  (* a cell of the root window: (0,0) *)
+  assert (Hq00 : cell_in (mkRect 0 0 (lines R) (cols R)) (0, 0)).
+  { unfold cell_in, bottom, right; cbn [top left lines cols fst snd]. unfold R. lia. }
+  destruct (flush_step0 rh (0, 0) (G1 rid R)
+              (re_handler_step0 no_defects rid R (0, 0) hnd racts Hq00 Hok) rects (s0, rb_new L C) HG0)
+    as [HGL _].
+  fold sbL in HGL. destruct HGL as ((HfuL & HridL & HrvL & HDL) & HrectL).
+  pose proof (forest_tree_nodup _ HfuL) as HuL.
   assert (HFL : FlagInv (fst sbL)).
   { apply flush_rb_re_flaginv. cbn [fst].
     unfold FlagInv, s0, loop_start; cbn [r_damage r_queue r_nexp r_later set_flags set_damage].
     rewrite Hq2. split; intros H; exfalso; apply H; reflexivity. }
   assert (Hsr : root_selfrect (fst sbL) = root_selfrect st2).
   { unfold root_selfrect, selfrect. rewrite HrectL. reflexivity. }
-  rewrite <- Est', <- Etm'. split; [|cbn [r_tree set_flags]; exact HuL].
+  rewrite <- Est', <- Etm'. split; [|split; [cbn [r_tree set_flags]; exact HuL|exact HfuL]].
   constructor; cbn [r_tree r_damage r_queue r_nexp r_later set_flags].
   - rewrite HrectL. exact Ho.
   - exact HrvL.
@@ -148,34 +191,33 @@ Proof.
     left.
     assert (Hnc : ~ cov0 q (fst sbL)).
     { intros H. apply coveredb_iff in H. congruence. }
-    assert (Hq0 : cell_in (selfrect (t_info T0)) q) by (apply cell_inb_iff; exact Hq).
-    set (V := vis_now s0).
-    assert (Hstep : forall id r sb, Gd T0 (fst sb) -> Gd T0 (fst (rh id r sb)) /\ St q V T0 (fst sb) (fst (rh id r sb))).
-    { apply (re_handler_step no_defects T0 q V Hq0 hnd racts Hok). }
-    assert (Hgsk : forall s, Gd T0 s -> skel (r_tree s) = skel T0) by (intros s (_ & H & _); exact H).
-    assert (HO0 : OKs q V T0 s0) by (intros x _; reflexivity).
-    pose proof (flush_re_q0 app rh Hsnd q V T0 (Gd T0) Hgsk Hstep L C rects s0 (rb_new L C)
-                  (flush_state_new L C) HG0 HO0) as Hcell.
+    assert (Hq0 : cell_in (mkRect 0 0 (lines R) (cols R)) q) by (apply cell_inb_iff; exact Hq).
+    pose proof (flush_re_q0 app rh Hsnd q (G1 rid R)
+                  (fun T P s => Gd rid T P s /\ w_rect (t_info T) = R)
+                  (rect_start rid R q)
+                  (fun T P V id r sb HG =>
+                     match HG with
+                     | conj HGd HR =>
+                       match re_handler_step no_defects rid R q hnd racts Hq0 Hok T P V id r sb HR HGd with
+                       | conj A B => conj (conj A HR) B
+                       end
+                     end)
+                  (re_handler_step0 no_defects rid R q hnd racts Hq0 Hok)
+                  L C rects s0 (rb_new L C) (flush_state_new L C) HG0) as Hcell.
     cbv zeta in Hcell. fold sbL in Hcell. specialize (Hcell HfL Hnc).
-    destruct (flush_step rh q V T0 (Gd T0) Hstep rects (s0, rb_new L C) HG0) as [_ HSt].
+    destruct (flush_step0 rh q (G1 rid R) (re_handler_step0 no_defects rid R q hnd racts Hq0 Hok)
+                rects (s0, rb_new L C) HG0) as [_ HSt].
     fold sbL in HSt. cbn [fst] in HSt.
-    destruct (HSt HfL Hnc) as (_ & _ & HOL). specialize (HOL HO0).
-    (* the owner of q is the same in the final tree *)
-    assert (Hown : owner_rel (r_tree (fst sbL)) q = own V T0 q).
-    { rewrite <- (own_self (vis_now (fst sbL)) (r_tree (fst sbL)) (Vok_self _ HuL) q).
-      rewrite (own_skel (vis_now (fst sbL)) T0 (r_tree (fst sbL)) q HskL).
-      apply (live_agree V (vis_now (fst sbL)) T0 q). exact HOL. }
-    assert (Hown0 : owner_rel T0 q = own V T0 q).
-    { symmetry. apply own_self. apply (Vok_self T0 HuT). }
+    destruct (HSt HfL Hnc) as (_ & _ & Hown). change (r_tree s0) with T0 in Hown.
     assert (Efull : rb_full L C q = true).
     { apply rb_full_root. exact Hq. }
     rewrite do_restore_grid. unfold term_flush_rb, term_set_grid, term_set_cvis; cbn [t_grid].
     rewrite Hcell, Efull. cbn [andb].
     destruct (in_any rects q) eqn:Eany.
-    + unfold paint_val, shows. rewrite Hown. destruct (own V T0 q) as [w pw]. reflexivity.
+    + unfold paint_val, shows. destruct (owner_rel (r_tree (fst sbL)) q) as [w pw]. reflexivity.
     + unfold rb_new; cbn [rb_cells].
       destruct (Hc q Hq) as [H|H].
-      * rewrite H. unfold shows. rewrite Hown, Hown0. reflexivity.
+      * rewrite H. unfold shows. rewrite Hown. reflexivity.
       * exfalso. assert (Ht : in_any rects q = true).
         { apply flush_rects_covered. split; [exact H|apply cell_inb_iff; exact Hq]. }
         congruence.
@@ -187,18 +229,20 @@ Qed.
 
 Corollary step_re_flush_preserves progs racts m :
   ScreenInv (m_app m) (m_root m) (m_term m) -> ids_unique (r_tree (m_root m)) ->
+  IP.ids_unique (m_root m) ->
   (forall id, progs id = [DPaint]) ->
   (forall id a, In a (racts id) ->
      match a with RShow w | RHide w => w <> t_id (r_tree (m_root m)) | _ => True end) ->
   let m' := step_re no_defects progs racts OFlush m in
   r_fault (m_root m') = false ->
-  ScreenInv (m_app m') (m_root m') (m_term m') /\ ids_unique (r_tree (m_root m')).
+  ScreenInv (m_app m') (m_root m') (m_term m') /\ ids_unique (r_tree (m_root m')) /\
+  IP.ids_unique (m_root m').
 Proof.
-  intros SI Hu Hprogs Hacts. cbv zeta. cbn [step_re].
+  intros SI Hu Hfu Hprogs Hacts. cbv zeta. cbn [step_re].
   destruct (win_flush_re no_defects (re_handler no_defects (prog_handler (m_app m) progs) racts)
                          (m_root m) (m_term m)) as [[st' tm'] lg] eqn:Hfl.
   cbn [m_root m_app m_term]. intros Hf.
-  exact (flush_re_establishes (m_app m) progs racts (m_root m) (m_term m) st' tm' lg SI Hu Hprogs Hacts Hfl Hf).
+  exact (flush_re_establishes (m_app m) progs racts (m_root m) (m_term m) st' tm' lg SI Hu Hfu Hprogs Hacts Hfl Hf).
 Qed.
 
 Lemma zrange_in lo n k : In k (zrange lo n) -> lo <= k < lo + n.
